@@ -264,19 +264,23 @@ Qed.
 (* ---------- non-vacuity *)
 Definition ex_schema : jschema :=
   JSch ["name"] false
-    [("res", JBlk 2 (JSch ["str"] false [("opts", JBlk 0 (JSch ["flag"] false []) [])])
-                    [(JCLabel 0 "aws", JSch ["zone"] false [])]);
-     ("locals", JBlk 0 (JSch [] true []) []);
-     ("backend", JBlk 0 (JSch ["kind"] false []) [(JCAttr "kind" "local" (Some "local"), JSch ["path"] false [])])].
+    [("res", JBlk 2 (JSch ["str"] false [("opts", JBlk 0 (JSch ["flag"] false [] false) [])] true)
+                    [(JCLabel 0 "aws", JSch ["zone"] false [("rule", JBlk 0 (JSch ["port"] false [] false) [])] false)]);
+     ("locals", JBlk 0 (JSch [] true [] false) []);
+     ("backend", JBlk 0 (JSch ["kind"] false [] false) [(JCAttr "kind" "local" (Some "local"), JSch ["path"] false [] false)])] false.
 
+(* (the resource body enables dynamic blocks: under the type whose body is found, the dependent body's block type
+   may be generated; under an unknown type, the static one) *)
 Definition ex_config : dbody :=
   DBody [("name", JStr "n")]
-    [("res", [(["aws"; "a"], DBody [("str", JStr "x"); ("zone", JStr "${var.z}")] [("opts", [([], DBody [("flag", JLit "true")] [])])]);
-              (["gcp"; "b"], DBody [] [])]);
+    [("res", [(["aws"; "a"], DBody [("str", JStr "x"); ("zone", JStr "${var.z}")]
+                 [("opts", [([], DBody [("flag", JLit "true")] [])]);
+                  ("dynamic", [(["rule"], DBody [("for_each", JArr [JStr "a"])] [("content", [([], DBody [("port", JLit "80")] [])])])])]);
+              (["gcp"; "b"], DBody [] [("dynamic", [(["opts"], DBody [("for_each", JArr [JStr "a"])] [("content", [([], DBody [("flag", JLit "true")] [])])])])])]);
      ("locals", [([], DBody [("l0", JArr [JLit "1"; JStr "s"])] [])]);
      ("backend", [([], DBody [("path", JStr "p")] []); ([], DBody [("kind", JStr "local"); ("path", JStr "q")] [])])].
 
-Example ex_conforms : conforms ex_schema ex_config = true /\ ddepth ex_config <= 3.
+Example ex_conforms : conforms ex_schema ex_config = true /\ ddepth ex_config <= 4.
 Proof. split; [vm_compute; reflexivity|vm_compute; lia]. Qed.
 
 Example ex_traversal : trav_ok TStart "res.aws.a[0].str" = true /\ trav_ok TStart "var.x y" = false.
